@@ -216,32 +216,46 @@ def bind_call(call: ast.Call, params: List[str], n_required: int, has_vararg: bo
 _REORDER = {"sorted", "reversed", "set", "frozenset"}
 
 
-def _dict_side(e):
-    """(dict text, 'keys'|'values'|'items', reordered?) when e enumerates one side of a dict"""
-    re_ = False
-    while isinstance(e, ast.Call) and isinstance(e.func, ast.Name) and e.func.id in (_REORDER | {"list", "tuple"}) and len(e.args) >= 1:
-        if e.func.id in _REORDER:
-            re_ = True
-        e = e.args[0]
-    if isinstance(e, ast.Call) and isinstance(e.func, ast.Attribute) and e.func.attr in ("keys", "values", "items") and not e.args:
-        return norm(e.func.value), e.func.attr, re_
-    if isinstance(e, (ast.Attribute, ast.Name)):
-        return norm(e), "keys", re_   # iterating a dict enumerates its keys
+def _order_of(e, local, depth=0):
+    """(dict text, side, order token) for an expression enumerating the keys or the values of a dict; order token is the
+    dict text itself for the dict's own order, or the text of the re-ordering expression"""
+    if depth > 4:
+        return None
+    if isinstance(e, ast.Name) and e.id in local:
+        return _order_of(local[e.id], local, depth + 1)
+    if isinstance(e, ast.Call) and isinstance(e.func, ast.Name) and e.func.id in ("list", "tuple") and len(e.args) == 1:
+        return _order_of(e.args[0], local, depth + 1)
+    if isinstance(e, ast.Call) and isinstance(e.func, ast.Name) and e.func.id in _REORDER and e.args:
+        inner = _order_of(e.args[0], local, depth + 1)
+        if inner:
+            return inner[0], inner[1], norm(e)
+        return None
+    if isinstance(e, ast.Call) and isinstance(e.func, ast.Attribute) and e.func.attr in ("keys", "values") and not e.args:
+        d = norm(e.func.value)
+        return d, e.func.attr, d
+    if isinstance(e, ast.ListComp) and len(e.generators) == 1 and not e.generators[0].ifs and isinstance(e.generators[0].target, ast.Name):
+        v = e.generators[0].target.id
+        src = _order_of(e.generators[0].iter, local, depth + 1)
+        if src and src[1] == "keys":
+            if isinstance(e.elt, ast.Subscript) and norm(e.elt.value) == src[0] and norm(e.elt.slice) == v:
+                return src[0], "values", src[2]
+            if norm(e.elt) == v:
+                return src[0], "keys", src[2]
+        return None
+    if isinstance(e, ast.Attribute) and isinstance(e.value, ast.Name) and e.value.id == "self":
+        return norm(e), "keys", norm(e)
     return None
 
 
 def check_parallel_lists(ctx, rule, funcs):
     """A mapping sent as two parallel lists (keys / values, re-zipped by the reader) must enumerate both sides in the same
-    order: keys() and values() of one dict agree, but not after one side alone went through sorted() / reversed() / set()."""
+    order: one traversal (`zip(*D.items())`), or D's own order on both sides, or the same re-ordered key list on both sides."""
     n = 0
     for f in funcs:
-        stores = {}
+        local = {}
         for a in ast.walk(f.node):
-            if isinstance(a, ast.Assign) and isinstance(a.targets[0], ast.Subscript) and isinstance(a.targets[0].slice, ast.Constant):
-                side = _dict_side(a.value)
-                if side:
-                    stores.setdefault(side[0], []).append((a, side))
-        # single traversal: `ks, vs = zip(*D.items())` is aligned by construction
+            if isinstance(a, ast.Assign) and len(a.targets) == 1 and isinstance(a.targets[0], ast.Name):
+                local.setdefault(a.targets[0].id, a.value)
         for a in ast.walk(f.node):
             if isinstance(a, ast.Assign) and isinstance(a.targets[0], ast.Tuple) and len(a.targets[0].elts) == 2 and isinstance(a.value, ast.Call) and isinstance(a.value.func, ast.Name) \
                     and a.value.func.id == "zip" and len(a.value.args) == 1 and isinstance(a.value.args[0], ast.Starred):
@@ -249,13 +263,83 @@ def check_parallel_lists(ctx, rule, funcs):
                 if isinstance(inner, ast.Call) and isinstance(inner.func, ast.Attribute) and inner.func.attr == "items":
                     n += 1
                     ctx.ok(rule, f"{f.qualname}: keys and values of `{norm(inner.func.value)}` come from one traversal", f, a)
+        stores = {}
+        for a in ast.walk(f.node):
+            if isinstance(a, ast.Assign) and isinstance(a.targets[0], ast.Subscript) and isinstance(a.targets[0].slice, ast.Constant):
+                o = _order_of(a.value, local)
+                if o:
+                    stores.setdefault(o[0], []).append((a, o))
         for d, lst in stores.items():
-            kinds = {s[1] for _, s in lst}
-            if not ({"keys", "values"} <= kinds):
+            sides = {o[1] for _, o in lst}
+            if not ({"keys", "values"} <= sides):
                 continue
             n += 1
-            re_flags = {s[2] for _, s in lst}
-            bad = next((a for a, s in lst if s[2]), None)
-            ctx.check(len(re_flags) == 1 and True not in re_flags or all(s[2] is False for _, s in lst), rule, f"{f.qualname}: keys and values of `{d}` are listed in the same order", f, bad or lst[0][0],
-                      f"the reader pairs the two lists position by position: re-ordering one side of `{d}` alone attaches every value to another key")
+            orders = {o[2] for _, o in lst}
+            bad = next((a for a, o in lst if o[2] != d), lst[0][0])
+            ctx.check(len(orders) == 1, rule, f"{f.qualname}: keys and values of `{d}` are listed in the same order", f, bad,
+                      f"the reader pairs the two lists position by position; here they follow {sorted(orders)}: every value is attached to another key")
+    return n
+
+
+def _repr_keys_in(e, local, rname, depth=0):
+    """keys of the repr dict `rname` an expression is derived from (through locals, comprehensions, list()/tuple())"""
+    out = set()
+    for n in ast.walk(e):
+        if isinstance(n, ast.Subscript) and isinstance(n.value, ast.Name) and n.value.id == rname and isinstance(n.slice, ast.Constant):
+            out.add(n.slice.value)
+        elif isinstance(n, ast.Name) and n.id in local and depth < 3:
+            out |= _repr_keys_in(local[n.id], local, rname, depth + 1)
+    return out
+
+
+def check_zipped_pairs(ctx, rule, cls_list, min_pairs=1):
+    """Reader-driven: whenever a decoder zips two keys of the repr back into a mapping, the encoder of the same class must have
+    written those two keys in the same order (one traversal, the dict's own order twice, or one re-ordered key list used for both)."""
+    n = 0
+    for ci in cls_list:
+        enc, dec = ci.methods.get("_simple_repr"), ci.methods.get("_from_repr")
+        if enc is None or dec is None:
+            continue
+        rname = dec.params[1] if len(dec.params) > 1 else "r"
+        dlocal = {a.targets[0].id: a.value for a in ast.walk(dec.node) if isinstance(a, ast.Assign) and len(a.targets) == 1 and isinstance(a.targets[0], ast.Name)}
+        pairs = []
+        for z in ast.walk(dec.node):
+            if isinstance(z, ast.Call) and isinstance(z.func, ast.Name) and z.func.id == "zip" and len(z.args) == 2:
+                ka, kb = _repr_keys_in(z.args[0], dlocal, rname), _repr_keys_in(z.args[1], dlocal, rname)
+                if len(ka) == 1 and len(kb) == 1:
+                    pairs.append((next(iter(ka)), next(iter(kb)), z))
+        if not pairs:
+            continue
+        elocal = {}
+        unpacked = {}
+        for a in ast.walk(enc.node):
+            if isinstance(a, ast.Assign) and len(a.targets) == 1 and isinstance(a.targets[0], ast.Name):
+                elocal.setdefault(a.targets[0].id, a.value)
+            if isinstance(a, ast.Assign) and isinstance(a.targets[0], ast.Tuple) and len(a.targets[0].elts) == 2 and isinstance(a.value, ast.Call) and isinstance(a.value.func, ast.Name) \
+                    and a.value.func.id == "zip" and len(a.value.args) == 1 and isinstance(a.value.args[0], ast.Starred) and isinstance(a.value.args[0].value, ast.Call) \
+                    and isinstance(a.value.args[0].value.func, ast.Attribute) and a.value.args[0].value.func.attr == "items":
+                d = norm(a.value.args[0].value.func.value)
+                for e_, side in zip(a.targets[0].elts, ("keys", "values")):
+                    if isinstance(e_, ast.Name):
+                        unpacked[e_.id] = (d, side, "zip:" + d)
+        for ka, kb, z in pairs:
+            n += 1
+            orders = []
+            site = enc.node
+            for key in (ka, kb):
+                st = [a for a in ast.walk(enc.node) if isinstance(a, ast.Assign) and isinstance(a.targets[0], ast.Subscript) and isinstance(a.targets[0].slice, ast.Constant)
+                      and a.targets[0].slice.value == key and not (isinstance(a.value, (ast.List, ast.Call)) and norm(a.value) in ("[]", "list()"))]
+                o = None
+                if len(st) == 1:
+                    site = st[0]
+                    v = st[0].value
+                    o = unpacked.get(v.id) if isinstance(v, ast.Name) and v.id in unpacked else _order_of(v, elocal)
+                orders.append(o)
+            ok = all(o is not None for o in orders) and orders[0][0] == orders[1][0] and {orders[0][1], orders[1][1]} == {"keys", "values"} and orders[0][2] == orders[1][2]
+            ctx.check(ok, rule, f"{ci.name}: `{ka}` and `{kb}` (zipped by the decoder) are written in the same order", enc, site,
+                      f"the decoder rebuilds the mapping with zip(r['{ka}'], r['{kb}']): the encoder must list keys and values of one dict in one order; found "
+                      f"{[(o[1], o[2]) if o else None for o in orders]}")
+    if n < min_pairs:
+        from .report import AnalysisError
+        raise AnalysisError(f"{rule}: only {n} decoder(s) zipping two repr keys found (expected >= {min_pairs})")
     return n
